@@ -257,13 +257,41 @@ fn run(tier: Tier) -> Sink {
     }
     judge_order(&order_values(), &mut s);
     // the whole type in both tiers (about 1 s on 16 cores): every one of the 2^32 bit patterns
-    let _ = tier;
     let f32s = par_range(0, 65536, |hi, s| {
         for lo in 0..65536u32 {
             judge_try32(((hi as u32) << 16) | lo, s);
         }
     });
-    s.merge(f32s)
+    let mut s = s.merge(f32s);
+    // f64: every pattern of the high 32 bits (sign, exponent, 20 mantissa bits) with the low
+    // word all zeros (thorough: also all ones and ...0001), through TryFrom<f64>
+    let lows: &[u64] = match tier {
+        Tier::Quick => &[0],
+        Tier::Thorough => &[0, 0xFFFF_FFFF, 1],
+    };
+    for &low in lows {
+        let part = par_range(0, 65536, |hi, s| {
+            for lo in 0..65536u64 {
+                let bits = ((hi << 16 | lo) << 32) | low;
+                let x = f64::from_bits(bits);
+                s.evals += 1;
+                s.calls += 1;
+                let r = Confidence::try_from(x);
+                let ok = x > 0.0 && x < 1.0;
+                let good = match &r {
+                    Ok(c) => ok && matches!(c, Confidence::TwoSided(l) if l.to_bits() == bits),
+                    Err(CIError::InvalidConfidenceLevel(y)) => !ok && (y.to_bits() == bits || (y.is_nan() && x.is_nan())),
+                    Err(_) => false,
+                };
+                if !good {
+                    let cls = if x.is_nan() { "nan" } else if x <= 0.0 { "nonpositive" } else if x >= 1.0 { "ge1" } else { "valid" };
+                    s.violation(format!("try_from_f64/{cls}/ok={}", r.is_ok()), format!("try_from({x:?} bits {bits:#018x}) = {r:?}"), json!({"check":"try_from_f64","bits":bits}));
+                }
+            }
+        });
+        s = s.merge(part);
+    }
+    s
 }
 
 fn replay_case(case: &Value, s: &mut Sink) {
@@ -299,7 +327,7 @@ fn main() {
     s.sample(json!({"try_from_f64":"0.9999999999999999 (1-2^-53)","expect":"Ok(TwoSided(same bits))"}));
     s.sample(json!({"try_from_f32":"NaN (0x7fc00000)","expect":"Err(InvalidConfidenceLevel(NaN))"}));
     s.sample(json!({"order":["UpperOneSided(0.95)","LowerOneSided(0.95)"],"expect":"partial_cmp None, != "}));
-    rep.rule = format!("{} boundary doubles x 4 panicking constructors + TryFrom<f64> + TryFrom<f32>; {}; all ordered pairs and triples of 36 valid confidences (12 levels incl. adjacent doubles x 3 kinds); accessor/flipped laws on every constructed value; distinct by (entry point, input class, accepted?) and (same kind?, observed, expected)", boundary64().len(), "ALL 2^32 f32 bit patterns through TryFrom<f32>");
+    rep.rule = format!("{} boundary doubles x 4 panicking constructors + TryFrom<f64> + TryFrom<f32>; {}; all ordered pairs and triples of 36 valid confidences (12 levels incl. adjacent doubles x 3 kinds); accessor/flipped laws on every constructed value; distinct by (entry point, input class, accepted?) and (same kind?, observed, expected)", boundary64().len(), if tier == Tier::Quick { "ALL 2^32 f32 bit patterns through TryFrom<f32>; all 2^32 f64 patterns with a zero low word through TryFrom<f64>" } else { "ALL 2^32 f32 bit patterns through TryFrom<f32>; all 2^32 f64 high words x low word in {0, 0xFFFFFFFF, 1} through TryFrom<f64>" });
     rep.assume("Confidence's enum variants are public; direct variant construction bypasses the constructors by design and is not judged");
     rep.require(s.distinct() >= 20, "fewer than 20 distinct classes: vacuous");
     std::process::exit(rep.finish(s));
